@@ -1,0 +1,44 @@
+//go:build verif
+
+// Contracts for deductive verification (read by /verif/govc). Comment-only: this file adds no code.
+package model
+
+// InitGenesis imports the module state; with pairwise distinct keys every listed record is stored as listed
+//@ func InitGenesis(ctx, k, genState)
+//@   modifies *
+//@   nopanic [C02.genesis.model.nopanic]
+//@   ensures [C18.init.model.metadata] (forall a int, b int :: 0 <= a && a < b && b < len(genState.MetadataList) ==> genState.MetadataList[a].DataId != genState.MetadataList[b].DataId) ==>
+//@       forall j int :: 0 <= j && j < len(genState.MetadataList) ==> has(Metadata, genState.MetadataList[j].DataId) && Metadata[genState.MetadataList[j].DataId] == genState.MetadataList[j]
+//@   ensures [C18.init.model.model] (forall a int, b int :: 0 <= a && a < b && b < len(genState.ModelList) ==> genState.ModelList[a].Key != genState.ModelList[b].Key) ==>
+//@       forall j int :: 0 <= j && j < len(genState.ModelList) ==> has(Model, genState.ModelList[j].Key) && Model[genState.ModelList[j].Key] == genState.ModelList[j]
+//@   ensures [C18.init.model.expireddata] (forall a int, b int :: 0 <= a && a < b && b < len(genState.ExpiredDataList) ==> genState.ExpiredDataList[a].Height != genState.ExpiredDataList[b].Height) ==>
+//@       forall j int :: 0 <= j && j < len(genState.ExpiredDataList) ==> has(ExpiredData, genState.ExpiredDataList[j].Height) && ExpiredData[genState.ExpiredDataList[j].Height] == genState.ExpiredDataList[j]
+//@   loop L1 invariant -1 <= rangeindex && rangeindex < len(genState0.MetadataList)
+//@   loop L1 invariant (forall a int, b int :: 0 <= a && a < b && b < len(genState0.MetadataList) ==> genState0.MetadataList[a].DataId != genState0.MetadataList[b].DataId) ==>
+//@       forall j int :: 0 <= j && j <= rangeindex ==> has(Metadata, genState0.MetadataList[j].DataId) && Metadata[genState0.MetadataList[j].DataId] == genState0.MetadataList[j]
+//@   loop L1 decreases [C02.genesis.term] len(genState0.MetadataList) - rangeindex
+//@   loop L2 invariant -1 <= rangeindex && rangeindex < len(genState0.ModelList)
+//@   loop L2 invariant (forall a int, b int :: 0 <= a && a < b && b < len(genState0.ModelList) ==> genState0.ModelList[a].Key != genState0.ModelList[b].Key) ==>
+//@       forall j int :: 0 <= j && j <= rangeindex ==> has(Model, genState0.ModelList[j].Key) && Model[genState0.ModelList[j].Key] == genState0.ModelList[j]
+//@   loop L2 decreases [C02.genesis.term] len(genState0.ModelList) - rangeindex
+//@   loop L2 invariant forall c string :: Metadata[c] == entry(Metadata[c]) && (has(Metadata, c) <==> entry(has(Metadata, c)))
+//@   loop L3 invariant -1 <= rangeindex && rangeindex < len(genState0.ExpiredDataList)
+//@   loop L3 invariant (forall a int, b int :: 0 <= a && a < b && b < len(genState0.ExpiredDataList) ==> genState0.ExpiredDataList[a].Height != genState0.ExpiredDataList[b].Height) ==>
+//@       forall j int :: 0 <= j && j <= rangeindex ==> has(ExpiredData, genState0.ExpiredDataList[j].Height) && ExpiredData[genState0.ExpiredDataList[j].Height] == genState0.ExpiredDataList[j]
+//@   loop L3 decreases [C02.genesis.term] len(genState0.ExpiredDataList) - rangeindex
+//@   loop L3 invariant forall c string :: Metadata[c] == entry(Metadata[c]) && (has(Metadata, c) <==> entry(has(Metadata, c)))
+//@   loop L3 invariant forall c string :: Model[c] == entry(Model[c]) && (has(Model, c) <==> entry(has(Model, c)))
+
+// ExportGenesis lists every record of every store of the module exactly as stored
+//@ func ExportGenesis(ctx, k) (genesis)
+//@   modifies nothing
+//@   ensures [C18.export.model.nonnil] genesis != nil
+//@   ensures [C18.export.model.metadata] (forall c string :: has(Metadata, c) ==> contains(genesis.MetadataList, Metadata[c]))
+//@       && (forall j int :: 0 <= j && j < len(genesis.MetadataList) ==> has(Metadata, genesis.MetadataList[j].DataId) && Metadata[genesis.MetadataList[j].DataId] == genesis.MetadataList[j])
+//@       && (forall a int, b int :: 0 <= a && a < b && b < len(genesis.MetadataList) ==> genesis.MetadataList[a].DataId != genesis.MetadataList[b].DataId)
+//@   ensures [C18.export.model.model] (forall c string :: has(Model, c) ==> contains(genesis.ModelList, Model[c]))
+//@       && (forall j int :: 0 <= j && j < len(genesis.ModelList) ==> has(Model, genesis.ModelList[j].Key) && Model[genesis.ModelList[j].Key] == genesis.ModelList[j])
+//@       && (forall a int, b int :: 0 <= a && a < b && b < len(genesis.ModelList) ==> genesis.ModelList[a].Key != genesis.ModelList[b].Key)
+//@   ensures [C18.export.model.expireddata] (forall c int :: 0 <= c && c <= MaxUint64 && has(ExpiredData, c) ==> contains(genesis.ExpiredDataList, ExpiredData[c]))
+//@       && (forall j int :: 0 <= j && j < len(genesis.ExpiredDataList) ==> has(ExpiredData, genesis.ExpiredDataList[j].Height) && ExpiredData[genesis.ExpiredDataList[j].Height] == genesis.ExpiredDataList[j])
+//@       && (forall a int, b int :: 0 <= a && a < b && b < len(genesis.ExpiredDataList) ==> genesis.ExpiredDataList[a].Height != genesis.ExpiredDataList[b].Height)
